@@ -87,6 +87,17 @@ EDITS = [
         "    t = (json_file,schema_file)\n", "    t = (json_file,)\n")]),
     ('m-schema-resolver-not-installed', ['C19'], 'violation', [(UT,
         "jsonschema.validators.RefResolver = LocalFileResolver\n", "# jsonschema.validators.RefResolver = LocalFileResolver\n")]),
+    # (second build session) a test and the use of what it tested on ONE source line: no window at any line
+    # boundary, only a pre-emption inside the line (sys.monitoring instruction events) shows it
+    ('m-valid-cache-check-then-index-on-one-line', ['C16'], 'violation', [(UT,
+        "    cached = _valid_against_schema_cache.get(t)  # one read: another thread may evict t at any moment\n    if cached is not None and (cached or not expect_failure):\n        # a remembered failure must still raise when the caller expects the failure\n        return cached\n",
+        "    if t in _valid_against_schema_cache and (_valid_against_schema_cache[t] or not expect_failure): return _valid_against_schema_cache[t]\n")]),
+    # state shared between competition objects: a module-level memo of the ranking key, keyed by bib and
+    # card - right within one competition (the heights are fixed), stale for the next one in the process
+    ('m-hj-ranking-key-memo-shared-between-competitions', ['C03', 'C02'], 'violation', [(HJ,
+        "    @property\n    def ranking_key(self) -> Tuple[int, Decimal, int, int]:\n        \"\"\"Return a sort key to determine who is winning\"\"\"\n        x = self.highest_cleared_index\n",
+        "    @property\n    def ranking_key(self) -> Tuple[int, Decimal, int, int]:\n        \"\"\"Return a sort key to determine who is winning\"\"\"\n        mk = (self.bib, self.eliminated, tuple(self.attempts_by_height))\n        if mk not in _KEY_MEMO:\n            _KEY_MEMO[mk] = self._ranking_key()\n        return _KEY_MEMO[mk]\n\n    def _ranking_key(self):\n        x = self.highest_cleared_index\n"),
+        (HJ, "class Jumper(object):\n", "_KEY_MEMO = {}\n\nclass Jumper(object):\n")]),
     # ---- negative controls ----
     ('nc-lock-around-cache-insert', ['C16', 'C19'], 'silent', [(UT,
         "R = TypeVar('R')\ndef _add_to_cache(c: Dict[R, T], t: R, v: T, maxlen: int = 20) -> T:\n    while len(c) >= maxlen:\n        c.popitem()     # drops the most recent entry, as before, without iterating a shared dict\n    c[t] = v\n    return v\n",
